@@ -675,7 +675,7 @@ pub fn run_pair(pc: &PairCfg, prefix: &[u16]) -> PairResult {
     let evs_r = rd.take_events();
     let stored = std::fs::read(&dst).ok();
     // judge each worker's own trace with the Mode A monitors, then the composition
-    let xs = XCfg { role: Role::Sender, blk: pc.blk, ws: pc.ws, len: pc.len, handshake: false, timeout_s: 5, repeat: 1, clean: true, alpha: 3, silence_after: None, error_at: None, ack_every_copy: false, snapshot_tail: false, noise: None, noise_resume: false, send_fail_at: None };
+    let xs = XCfg { role: Role::Sender, blk: pc.blk, ws: pc.ws, len: pc.len, handshake: false, timeout_s: 5, repeat: 1, clean: true, alpha: 3, silence_after: None, error_at: None, ack_every_copy: false, snapshot_tail: false, noise: None, noise_resume: false, send_fail_at: None, error_latin1: false };
     let mut xr = xs.clone();
     xr.role = Role::Receiver;
     let ts = Trace { cfg: xs, events: evs_s, log: vec![], panicked: ps, stuck: false, horizon_hit: false, replay_error: None, now_calls: 1, final_file: None, content: std::sync::Arc::new(data.clone()) };
